@@ -264,6 +264,35 @@ func features(d string) []feature {
 			colf("on_update:"+ou, "created", func(c *Col) { c.OnUpdate = ou })
 			colf("on_update+default:"+ou, "created", func(c *Col) { c.OnUpdate = ou; c.Def = raw(ou) })
 		}
+		// fixed charset/collation matrix: child (column | table) × parent (table | schema) combinations.
+		type cc struct{ n, cs, co string }
+		parents := []cc{{"none", "", ""}, {"charset-only", "utf8mb4", ""}, {"collation-only", "", "utf8mb4_0900_ai_ci"}, {"both", "utf8mb4", "utf8mb4_0900_ai_ci"}}
+		children := []cc{
+			{"same-charset+other-collation", "utf8mb4", "utf8mb4_bin"},
+			{"other-charset+default-collation", "latin1", "latin1_swedish_ci"},
+			{"other-charset+other-collation", "latin1", "latin1_bin"},
+			{"only-collation", "", "utf8mb4_bin"},
+			{"only-charset", "latin1", ""},
+			{"equal", "utf8mb4", "utf8mb4_0900_ai_ci"},
+		}
+		for _, pa := range parents {
+			for _, ch := range children {
+				pa, ch := pa, ch
+				add("charset-matrix.column.parent="+pa.n+".child="+ch.n, func(s *Sch) {
+					t := s.tab("child")
+					t.Charset, t.Collation = pa.cs, pa.co
+					t.col("name").Charset, t.col("name").Collation = ch.cs, ch.co
+					t.col("body").Charset, t.col("body").Collation = ch.cs, ch.co
+				})
+				fs[len(fs)-1].Solo = true
+				add("charset-matrix.table.parent="+pa.n+".child="+ch.n, func(s *Sch) {
+					s.Charset, s.Collation = pa.cs, pa.co
+					t := s.tab("child")
+					t.Charset, t.Collation = ch.cs, ch.co
+				})
+				fs[len(fs)-1].Solo = true
+			}
+		}
 		add("table.charset-without-schema-charset", func(s *Sch) {
 			s.Charset, s.Collation = "", ""
 			s.tab("child").Charset, s.tab("child").Collation = "latin1", "latin1_bin"
